@@ -315,7 +315,7 @@ PROPS['C12'] = dict(
                "harness and not modelled; harness. Axioms: none.",
 )
 
-BRANCH_NAMES['textforms'] = ['cases', 'outside-modelled-syntax', 'text', 'parse', 'report', 'decode', 'pack']
+BRANCH_NAMES['textforms'] = ['cases', 'outside-modelled-syntax', 'text', 'parse', 'report', 'decode', 'pack', 'pack_bytes_exact']
 PROPS['C17'] = dict(
     level='proof',
     projections=[dict(name='textforms', spec_index=1, n_quick=1500, n_thorough=30000)],
